@@ -392,3 +392,27 @@ Example history_runs :
   | HErr _ => False
   end.
 Proof. vm_compute. split; [reflexivity|]. right. right. now left. Qed.
+
+(** ** [FromIterator] / [Extend] / the [From] impls: [new(max 1 n)] followed by one [put] per pair — an
+    instance of [history_safe] *)
+Definition puts_of (l : list entry) : list hop := map (fun e => HPut (fst e) (snd e)) l.
+
+Lemma lrun_puts l : forall s, fst (lrun s (puts_of l)) = refill s l.
+Proof.
+  induction l as [|[k v] rest IH]; intros s; [reflexivity|].
+  cbn [puts_of map lrun lstep fst snd]. unfold refill. cbn [fold_left fst snd].
+  destruct (Lru.put s k v) as [[s1 r] cbs]. cbn [fst].
+  specialize (IH s1). unfold puts_of in IH. destruct (lrun s1 (map (fun e => HPut (fst e) (snd e)) rest)) as [s2 rs].
+  cbn [fst] in *. exact IH.
+Qed.
+
+Theorem from_iter_heap l :
+  exists h q h',
+    hrun (fst (hnew heap0 (Nat.max 1 (length l)))) (snd (hnew heap0 (Nat.max 1 (length l)))) (puts_of l)
+      = HOk (h, q, snd (lrun (lru_new (Nat.max 1 (length l)) false) (puts_of l))) /\
+    R h q (from_iter l) /\ h_drop h q = HOk h' /\ (forall a, cells h' a = Free).
+Proof.
+  destruct (history_safe (Nat.max 1 (length l)) false (puts_of l)) as (h & q & h' & E & HR & Ed & Hall).
+  exists h, q, h'. split; [exact E|]. split; [|split; assumption].
+  unfold from_iter. now rewrite <- lrun_puts.
+Qed.
